@@ -232,6 +232,11 @@ def mat_close(a, b, rtol=1e-9):
     (a covariance at -150 dBm is compared as strictly as one of order one)"""
     a = np.asarray(a)
     b = np.asarray(b)
+    try:        # (a matrix of Python objects is compared by the numbers it holds; anything else is no matrix)
+        a = a.astype(complex) if a.dtype == object else a
+        b = b.astype(complex) if b.dtype == object else b
+    except (TypeError, ValueError):
+        return False
     if a.shape != b.shape or not (np.all(np.isfinite(a)) and np.all(np.isfinite(b))):
         return False
     if a.size == 0:
@@ -1548,7 +1553,7 @@ def _run_session(sess):
                     rec[what + '2'] = eval_channel(ch, c, what == 'jp')
         c2 = second_case(c, F2, U2)
         try:
-            rec['sol2'] = eval_solver(sol2, ch, c2, synced=sync2)
+            rec['sol2'] = None if ops.get('no_sol2') else eval_solver(sol2, ch, c2, synced=sync2)
         except np.linalg.LinAlgError:
             rec['sol2'] = None
         rec['case2'] = c2
@@ -2489,6 +2494,12 @@ class Gen:
         for st in steps:
             st['ops'].update({'reject': [], 'query': [], 'setter_order': ['pl', 'noise', 'post'], 'derive': None,
                               'repeat': False, 'sol2': False})
+            if param == 'pe':
+                # the external power is an ARGUMENT of the calc_* calls: nothing may come between the call with one
+                # value and the call with the close one (the solver asks the channel object for its covariance at
+                # the default power, which would flush a "last value" memo)
+                st['ops']['no_sol2'] = True
+                st['ops']['order'] = ['sol', 'ic', 'jp'] if st is steps[0] else [w for w in st['ops']['order'] if w != 'sol']
         return {'ext': bool(ext), 'kind': 'gauss', 'steps': steps, 'r15': [param, closeness],
                 'margin': min(margins) if margins else 0.0, 'scalar_P': bool(scalar_P)}
 
@@ -3318,7 +3329,10 @@ def check(ctx):
 def search(ctx):
     """deeper failing-input search, used when a proof / correspondence broke"""
     before = len(ctx.failures)
+    g = Gen(ctx.rng.fork('search'), ctx.tier)
     for _ in range(4):
-        oracles(ctx, gen_cases(ctx, 400), gen_sessions(ctx, 100))
+        sessions = gen_sessions(ctx, 100) + [g.buffer_session() for _ in range(30)] + \
+            [g.r15_session(p_, c_, scalar_P=g.rng.chance(0.5)) for p_, c_ in R15_KINDS]
+        oracles(ctx, gen_cases(ctx, 400), sessions, roles=[g.roles_case() for _ in range(40)])
         if len(ctx.failures) > before:
             return
